@@ -57,8 +57,8 @@ use neumann_parser::{
     GraphBatchStmt, GraphConstraintOp, GraphConstraintStmt, GraphIndexOp, GraphIndexStmt,
     GraphPatternOp, GraphPatternStmt, InsertSource, InsertStmt, JoinCondition, JoinKind, Literal,
     NeighborsStmt, NodeOp, NodeStmt, NullsOrder, PathStmt, Property, RollbackStmt, SelectStmt,
-    SimilarQuery, SimilarStmt, SortDirection, Statement, StatementKind, TableRefKind, UpdateStmt,
-    VaultOp, VaultStmt,
+    SimilarQuery, SimilarStmt, SortDirection, Statement, StatementKind, TableRefKind, UnaryOp,
+    UpdateStmt, VaultOp, VaultStmt,
 };
 use relational_engine::{
     ColumnarScanOptions, Condition, RelationalEngine, RelationalError, Row, Value,
@@ -3881,6 +3881,9 @@ impl QueryRouter {
 
     #[allow(clippy::unused_self)] // Method signature for API consistency
     fn expr_to_property_value(&self, expr: &Expr) -> Result<PropertyValue> {
+        if let Some(folded) = Self::fold_negative_literal(expr) {
+            return self.expr_to_property_value(&folded);
+        }
         match &expr.kind {
             ExprKind::Literal(lit) => match lit {
                 Literal::Null => Ok(PropertyValue::Null),
@@ -5766,6 +5769,19 @@ impl QueryRouter {
 
     // ========== AST Conversion Helpers ==========
 
+    /// Folds `-<numeric literal>` into a negative literal expression (`-5`, `-2.5`).
+    fn fold_negative_literal(expr: &Expr) -> Option<Expr> {
+        if let ExprKind::Unary(UnaryOp::Neg, inner) = &expr.kind {
+            let lit = match &inner.kind {
+                ExprKind::Literal(Literal::Integer(i)) => Literal::Integer(i.checked_neg()?),
+                ExprKind::Literal(Literal::Float(f)) => Literal::Float(-f),
+                _ => return None,
+            };
+            return Some(Expr::new(ExprKind::Literal(lit), expr.span));
+        }
+        None
+    }
+
     fn expr_to_condition(&self, expr: &Expr) -> Result<Condition> {
         match &expr.kind {
             ExprKind::Binary(left, op, right) => match op {
@@ -5889,6 +5905,9 @@ impl QueryRouter {
     ///
     /// Returns an error if the expression cannot be converted to a filter value.
     pub fn expr_to_filter_value(&self, expr: &Expr) -> Result<FilterValue> {
+        if let Some(folded) = Self::fold_negative_literal(expr) {
+            return self.expr_to_filter_value(&folded);
+        }
         match &expr.kind {
             ExprKind::Literal(lit) => match lit {
                 Literal::Null => Ok(FilterValue::String("null".to_string())),
@@ -5907,6 +5926,9 @@ impl QueryRouter {
 
     #[allow(clippy::unused_self)] // Method signature for API consistency
     fn expr_to_value(&self, expr: &Expr) -> Result<Value> {
+        if let Some(folded) = Self::fold_negative_literal(expr) {
+            return self.expr_to_value(&folded);
+        }
         match &expr.kind {
             ExprKind::Literal(lit) => match lit {
                 Literal::Null => Ok(Value::Null),
@@ -5954,6 +5976,9 @@ impl QueryRouter {
     #[allow(clippy::cast_possible_truncation)] // Truncation acceptable for f32 conversion
     #[allow(clippy::cast_precision_loss)] // Precision loss acceptable for numeric conversion
     fn expr_to_f32(&self, expr: &Expr) -> Result<f32> {
+        if let Some(folded) = Self::fold_negative_literal(expr) {
+            return self.expr_to_f32(&folded);
+        }
         match &expr.kind {
             ExprKind::Literal(Literal::Float(f)) => Ok(*f as f32),
             ExprKind::Literal(Literal::Integer(i)) => Ok(*i as f32),
@@ -5964,6 +5989,9 @@ impl QueryRouter {
     #[allow(clippy::unused_self)] // Method signature for API consistency
     #[allow(clippy::cast_precision_loss)] // Precision loss acceptable for numeric conversion
     fn expr_to_f64(&self, expr: &Expr) -> Result<f64> {
+        if let Some(folded) = Self::fold_negative_literal(expr) {
+            return self.expr_to_f64(&folded);
+        }
         match &expr.kind {
             ExprKind::Literal(Literal::Float(f)) => Ok(*f),
             ExprKind::Literal(Literal::Integer(i)) => Ok(*i as f64),
@@ -6070,7 +6098,8 @@ impl QueryRouter {
     fn properties_to_map(&self, properties: &[Property]) -> Result<HashMap<String, PropertyValue>> {
         let mut map = HashMap::new();
         for prop in properties {
-            let value = match &prop.value.kind {
+            let folded = Self::fold_negative_literal(&prop.value);
+            let value = match &folded.as_ref().unwrap_or(&prop.value).kind {
                 ExprKind::Literal(Literal::Null) => PropertyValue::Null,
                 ExprKind::Literal(Literal::Boolean(b)) => PropertyValue::Bool(*b),
                 ExprKind::Literal(Literal::Integer(i)) => PropertyValue::Int(*i),
